@@ -14,6 +14,7 @@ Failure clauses (first component = property the clause belongs to):
   C08.multi_invocation
   C10.contract
   C12.tree C12.noop C12.tmpdir C12.after_clean
+  C14.not_surfaced C14.swallowed
 """
 import collections
 import json
@@ -272,26 +273,59 @@ class Harness:
         has_cache = self.cache in pre and pre[self.cache][0] == 'f'
         fails = []
 
-        # ---- model run (crash builds: the model only says "it raises")
+        fault = mode if isinstance(mode, dict) else None
         mctx = dsl.Ctx('model', prog, versions, ctx_step, self.universe, self.masked)
         mb = ModelBuild(pre_model, self.prev, self.cache, versions, self.R)
-        if crash_at is None:
+
+        def run_model():
+            # crash builds: the model only says "it raises"
+            if crash_at is not None:
+                return ('exc', 'Crash')
             try:
-                mret = ('ok', dsl.root_func(mctx)(ModelBuilder(mb, None)))
+                return ('ok', dsl.root_func(mctx)(ModelBuilder(mb, None)))
             except Exception as e:
-                mret = ('exc', dsl.exc_class(e))
-        else:
-            mret = ('exc', 'Crash')
+                return ('exc', dsl.exc_class(e))
+
+        if fault is None:
+            mret = run_model()
 
         # ---- real run
         rctx = dsl.Ctx('real', prog, versions, ctx_step, self.universe, self.masked, crash_at)
         real_exc = None
+        inj = None
+        if fault is not None:
+            from . import interpose
+            interpose.install()
+            inj = interpose.FaultInjector(fault.get('k'))
+            rctx.fault_mode = 'catch' if fault.get('catch') else 'nocatch'
+
+            def on_fire(_i):
+                rctx.fault_call = rctx.call_stack[-1] if rctx.call_stack else '<top>'
+            inj.on_fire = on_fire
+            rctx.extra['injector'] = inj
+            interpose.HOOK = inj
         try:
             rret = ('ok', FileBuilder.build_versioned(self.cache, BUILD_NAME, versions, dsl.root_func(rctx)))
         except Exception as e:
             real_exc = e
             rret = ('exc', dsl.exc_class(e))
             rctx.extra['tb'] = traceback.format_exc()
+        finally:
+            if fault is not None:
+                interpose.HOOK = None
+        fault_fired = inj is not None and inj.fired is not None
+        self._fault_fired_now = fault_fired
+        if fault is not None:
+            self.last_fault = {'count': inj.count, 'fired': inj.fired, 'call': rctx.fault_call, 'labels': inj.labels}
+            if fault_fired and rctx.fault_call != '<top>' and rctx.fault_mode == 'catch':
+                mctx.fault_mode = 'catch'
+                mctx.fault_call = rctx.fault_call
+                mb.fault_inv = rctx.fault_call
+                mret = run_model()
+            elif fault_fired:
+                mret = ('exc', 'fault')
+            else:
+                mret = run_model()
         post = snapshot(self.R)
         info = {'step': self.step, 'model': mret if mret[0] == 'exc' else ('ok',), 'real': rret if rret[0] == 'exc' else ('ok',)}
         self.rctx, self.mctx, self.mb = rctx, mctx, mb
@@ -354,6 +388,10 @@ class Harness:
                 else:
                     fails.append(self._fail('C02.exc_identity', 'crash exception replaced by %s' % (rret[1] if rret[0] == 'exc' else 'a normal return'),
                                             {**info, 'tb': rctx.extra.get('tb', '')[-1500:]}))
+        elif mret == ('exc', 'fault'):
+            if rret[0] != 'exc':
+                fails.append(self._fail('C14.not_surfaced', 'an injected OSError in %s did not surface from build' % inj.fired[1],
+                                        {**info, 'fault': inj.fired}))
         elif _outcome_key(mret) != _outcome_key(rret):
             sig = 'model %s / real %s' % (_short(mret), _short(rret))
             fails.append(self._fail('C01.outcome', sig, {**info, 'model_value': mret[1] if mret[0] == 'ok' else None,
@@ -365,6 +403,9 @@ class Harness:
             if expected_obj is not None and real_exc is not expected_obj and isinstance(real_exc, (UserError, Crash)):
                 fails.append(self._fail('C02.exc_identity', 'propagated exception is not the raised object', info))
 
+        if rctx.extra.get('fault_swallowed'):
+            fails.append(self._fail('C14.swallowed', 'an injected OSError in %s was swallowed: the call in progress returned normally' % inj.fired[1],
+                                    {**info, 'fault': inj.fired, 'call': self.relp(rctx.extra['fault_swallowed'])}))
         tmp_left = self.sb.tmp_listing()
         real_committed = rret[0] == 'ok'
         if real_committed:
@@ -393,6 +434,7 @@ class Harness:
             new_prev = Prev(mb.outputs, set(mb.created) | set(cd), versions, mb.forest)
             new_prev.meta = {p: (post[p][1], post[p][2]) for p in mb.outputs if p in post and post[p][0] == 'f'}
             new_prev.overwrote_foreign = bool(mb.overwritten_foreign)
+            new_prev.had_fault = fault_fired        # the conditions of that build (an injected I/O error) no longer hold
             self.prev = new_prev
             self.last_committed = {'step': self.step, 'observed': self._observed_paths(mb.forest, mctx),
                                    'outputs': set(mb.outputs), 'created': set(mb.created) | set(cd),
@@ -412,12 +454,14 @@ class Harness:
             n0 = len(fails)
             fails = [f for f in fails if f['clause'] not in ('C01.outcome', 'C01.tree', 'C04.answer')]
             st['stale_allowed_content_failures_ignored'] += n0 - len(fails)
+        if fault is not None and fault.get('k') is not None and not real_committed:
+            self.step -= 1        # like a crash build: a rolled-back fault build consumes no step number (twin mtimes)
         twin_state = getattr(self, '_twin_state', None)
         self._twin_state = 'after_failed' if (twin_state == 'restored' and not real_committed) else None
         # ---- twin bookkeeping (C02c: the build after a failed build == the same build without it)
         summary = {'outcome': _outcome_key(rret), 'tree': {k: v[:3] for k, v in post.items() if k != self.cache},
                    'cache_present': self.cache in post, 'log': [(l['inv']) for l in rctx.log]}
-        if getattr(self, '_want_twin', False) and crash_at is None:
+        if getattr(self, '_want_twin', False) and crash_at is None and (fault is None or fault.get('k') is None):
             self._twin = summary
             self._want_twin = False
         elif mode == 'cmp_twin' and getattr(self, '_twin', None) is not None and twin_state != 'after_failed':
@@ -703,6 +747,7 @@ class Harness:
             return 'F:' + n.path if n.kind == 'file' else 'S:%s:%s' % (n.fname, _ct([n.args, n.kwargs]))
 
         strict = (not self.mutated_since_commit and not getattr(prev, 'overwrote_foreign', False)
+                  and not getattr(self, '_fault_fired_now', False) and not getattr(prev, 'had_fault', False)
                   and versions_equal(prev.versions, versions, list(self.prog['funcs'])))
         if strict:
             self.stats['c05_unchanged_rebuilds'] += 1
